@@ -251,6 +251,13 @@ class _NP:
         return _NP.zeros_like(a, dtype=dtype, **k)
 
     @staticmethod
+    def asarray(obj, dtype=None, *a, **k):
+        # a float target holding symbolic values stays an object array (the code under analysis asks for float64)
+        if dtype is not None and _float_dtype(dtype) and _has_sym(obj):
+            return _np.asarray(obj, dtype=object)
+        return _np.asarray(obj, dtype, *a, **k)
+
+    @staticmethod
     def array(obj, dtype=None, *a, **k):
         if dtype is not None and _float_dtype(dtype) and _has_sym(obj):
             return _np.array(obj, dtype=object)
